@@ -162,7 +162,7 @@ impl<'a> RtcpPacketWriter for AppBuilder<'a> {
 
         writer::check_padding(self.padding)?;
 
-        Ok(size)
+        writer::check_packet_len(size)
     }
 
     /// Writes this App packet specific data into `buf` without any validity checks.
